@@ -5,7 +5,7 @@ HERE = os.path.dirname(os.path.abspath(__file__))
 def child(code, timeout=10):
     try:
         r = subprocess.run([sys.executable, '-c', 'import sys; sys.path.insert(0, %r)\nfrom common import *\n' % HERE + textwrap.dedent(code)], capture_output=True, text=True, timeout=timeout, cwd=HERE)
-        return 'rc=%s %s' % (r.returncode, (r.stdout + r.stderr[-200:]).strip().replace('\n', ' | '))
+        return 'rc=%s %s' % (r.returncode, (r.stdout + r.stderr[-300:]).strip().replace('\n', ' | '))
     except subprocess.TimeoutExpired:
         return 'TIMEOUT (hang)'
 cases = {
@@ -101,13 +101,13 @@ cases['D4 dstuVerify accepts off-curve public key (0,0) (curve 233, ld=1024)'] =
     P['P'] = dstu.point_gen(P, tape); assert dstu.encode_point(P, P['P']) == pt.raw; ctypes.memmove(s.P, pt.raw, 2 * no)
     Verify = fn('dstuVerify', ctypes.c_int, ctypes.POINTER(PARAMS), c_size, ctypes.c_char_p, c_size, ctypes.c_char_p, ctypes.c_char_p)
     import random; R = random.Random(5); found = None
-    for i in range(60):
-        h = R.randbytes(32); d = 1; e = R.choice([1, 2, 3, R.getrandbits(200) | 1])
+    for i in range(500):
+        h = R.randbytes(32); d = R.choice([1, R.getrandbits(231) | 1]); e = R.choice([1, P['n'] - 1, R.getrandbits(231) | 1])
         sig = dstu.sign(P, 1024, h, d, e)
         if sig is None: continue
         rc = Verify(ctypes.byref(s), 1024, h, 32, sig, bytes(2 * no))
-        if rc == 0: found = (h.hex(), sig.hex(), e); break
-    print('base point', pt.raw.hex()[:24] + '..', '| accepted with pubkey (0,0):', found is not None, found and ('hash ' + found[0] + ' sig ' + found[1][:64] + '.. e=%d d=1' % found[2]), '| model verify:', found and dstu.verify(P, 1024, bytes.fromhex(found[0]), bytes.fromhex(found[1]), bytes(2 * no)))'''
+        if rc == 0: found = (h.hex(), sig.hex(), e, d); break
+    print('base point', pt.raw.hex()[:24] + '..', '| accepted with pubkey (0,0):', found is not None, found and ('hash ' + found[0] + ' sig ' + found[1] + ' e=%d d=%d' % (found[2], found[3])), '| model verify:', found and dstu.verify(P, 1024, bytes.fromhex(found[0]), bytes.fromhex(found[1]), bytes(2 * no)))'''
 cases['S1 stb99ParamsVal accepts a = 0, d = 0 ("test" params; header: 0 < a, d < p)'] = '''
     import stb99
     class PARAMS(ctypes.Structure):
@@ -130,4 +130,4 @@ cases['S2 stb99SeedVal: di[0] bound and ri chain rule differ from stb99.h'] = ''
     S = {'l': 1022, 'zi': list(range(1, 32)), 'di': [512, 257, 129, 65, 33, 17] + [0] * 12, 'ri': [175, 88, 45, 23, 17] + [0] * 5}
     print('| ri=[175,88,45,23,17] (5*17/4 < 23): lib rc', run(S), 'model', stb99.seed_val(S))'''
 for name, code in cases.items():
-    print(name, '\n    ->', child(code, 60 if name.startswith('D4') else 10))
+    print(name, '\n    ->', child(code, 300 if name.startswith('D4') else 10))
